@@ -29,4 +29,18 @@ CLAIMED = {
    note=("Trusted: Coq kernel, translator, extraction, harness glue; environment assumption: virtual offset a of the double "
          "mapping is ring byte a mod size. Page size 4096 in the executable runs (the theorems hold for any page size)."),
    technique="Coq proof (modular-arithmetic invariant over histories) on a model regenerated from the Go source; differential correspondence + extracted ring oracle"),
+ "C09": dict(
+   text=("Coq theorems (5, closed under the global context): the hand-written model of byte_buffer.go (indices + bytes, "
+         "int64 wrap-around written into the model where an argument is added to an index) REFINES the three-FIFO "
+         "specification for every one of the 21 operations of the public API and every integer argument - regions "
+         "(saved, readable, uncommitted, room) and results - keeps the invariant 0<=si<=ri<=wi=len<=cap, never panics, "
+         "and this lifts by induction to every history from a fresh buffer. The model is tied to the code by running it "
+         "and the real ByteBuffer on the same scripts (all 1- and 2-call sequences over the full API x boundary "
+         "arguments incl. MaxInt64/MinInt64 from 4 start states, random histories through reallocation, scripted "
+         "readers/writers), comparing all three regions, Reserved(), Len() and results after every call; the extracted "
+         "specification independently judges the implementation's traces."),
+   note=("Trusted: Coq kernel, extraction, harness glue. Side conditions (env_ok): Reserve requests fit in memory (n <= 2^20 in "
+         "the runs), capacity reported after append is at least the needed one, a caller claiming n bytes wrote n bytes, "
+         "readers/writers conform to io.Reader/io.Writer. Prefault and slack bytes beyond len are not modelled."),
+   technique="Coq refinement proof (model -> abstract three-FIFO spec, all ops, all int64 arguments, induction over histories); differential correspondence + extracted oracle"),
 }
